@@ -20,7 +20,9 @@
 EXTENDS Naturals, FiniteSets, Sequences, TLC
 
 CONSTANTS Subs,                \* submitter ids, e.g. {1, 2}
-          RegisterBeforeInit   \* design variant
+          RegisterBeforeInit,  \* design variant
+          Streaming            \* subset of Subs issuing streaming commands (FETCH, LIST, EXPUNGE): the reader
+                               \* looks the command up under the mutex and sends the data on its channel afterwards
 
 VARIABLES pc,        \* [Subs -> "idle" | "init" | "write" | "wait" | "done" | "stuck"]
           registered,\* pendingCmds: sequence of commands, in registration order
@@ -30,9 +32,12 @@ VARIABLES pc,        \* [Subs -> "idle" | "init" | "write" | "wait" | "done" | "
           conn,      \* "open" | "lost"
           closer,    \* [proc -> [st: "none"|"swapped"|"done"|"stuck", take: set]] for proc in Procs
           reader,    \* "run" | "exit"
-          race       \* a data race has happened
+          race,      \* a data race has happened
+          enc,       \* holder of encMutex (0 = free): taken in beginCommand, released by commandEncoder.end
+          found,     \* streaming command the reader has looked up and is about to hand data to (0 = none)
+          panicked   \* the reader sent on a channel that completeCommand had already closed
 
-vars == <<pc, registered, inited, sent, ncomp, conn, closer, reader, race>>
+vars == <<pc, registered, inited, sent, ncomp, conn, closer, reader, race, enc, found, panicked>>
 
 ReaderProc == 0   \* process id of the reader goroutine (submitters are 1, 2, ...)
 Procs == Subs \cup {ReaderProc}
@@ -43,23 +48,23 @@ Without(q, x) == SelectSeq(q, LAMBDA y : y # x)
 Init ==
   /\ pc = [s \in Subs |-> "idle"] /\ registered = <<>> /\ inited = {} /\ sent = {}
   /\ ncomp = [s \in Subs |-> 0] /\ conn = "open"
-  /\ closer = [p \in Procs |-> NoClose] /\ reader = "run" /\ race = FALSE
+  /\ closer = [p \in Procs |-> NoClose] /\ reader = "run" /\ race = FALSE /\ enc = 0 /\ found = 0 /\ panicked = FALSE
 
 \* ------------------------------------------------------------ submitters
 \* beginCommand, critical section under the client mutex
 Register(s) ==
-  /\ pc[s] = "idle"
+  /\ pc[s] = "idle" /\ enc = 0 /\ enc' = s
   /\ registered' = Append(registered, s)
   /\ IF RegisterBeforeInit
      THEN pc' = [pc EXCEPT ![s] = "init"] /\ inited' = inited
      ELSE pc' = [pc EXCEPT ![s] = "write"] /\ inited' = inited \cup {s}
-  /\ UNCHANGED <<sent, ncomp, conn, closer, reader, race>>
+  /\ UNCHANGED <<sent, ncomp, conn, closer, reader, race, found, panicked>>
 
 \* (as-found design only) tag and done channel written outside the mutex
 Initialise(s) ==
   /\ pc[s] = "init"
   /\ inited' = inited \cup {s} /\ pc' = [pc EXCEPT ![s] = "write"]
-  /\ UNCHANGED <<registered, sent, ncomp, conn, closer, reader, race>>
+  /\ UNCHANGED <<registered, sent, ncomp, conn, closer, reader, race, enc, found, panicked>>
 
 \* the command line is flushed; on a dead connection the write fails and the
 \* submitter itself runs closeWithError
@@ -67,16 +72,18 @@ Write(s) ==
   /\ pc[s] = "write"
   /\ IF conn = "open"
      THEN /\ sent' = sent \cup {s} /\ pc' = [pc EXCEPT ![s] = "wait"] /\ closer' = closer /\ registered' = registered
-     ELSE /\ sent' = sent /\ pc' = [pc EXCEPT ![s] = "wait"]
+          /\ enc' = 0
+     ELSE /\ enc' = enc      \* flush failed: closeWithError runs inside end(), encMutex still held
+          /\ sent' = sent /\ pc' = [pc EXCEPT ![s] = "wait"]
           /\ closer' = [closer EXCEPT ![s] = [st |-> "swapped", take |-> registered]]
           /\ registered' = <<>>
-  /\ UNCHANGED <<inited, ncomp, conn, reader, race>>
+  /\ UNCHANGED <<inited, ncomp, conn, reader, race, found, panicked>>
 
 \* Wait returns once the command has been completed
 Wait(s) ==
   /\ pc[s] = "wait" /\ ncomp[s] >= 1 /\ closer[s].st \in {"none", "done"}
   /\ pc' = [pc EXCEPT ![s] = "done"]
-  /\ UNCHANGED <<registered, inited, sent, ncomp, conn, closer, reader, race>>
+  /\ UNCHANGED <<registered, inited, sent, ncomp, conn, closer, reader, race, enc, found, panicked>>
 
 \* ------------------------------------------------------------ completing a command
 \* completeCommand(c) executed by process p: on an uninitialised command p blocks forever
@@ -89,22 +96,34 @@ CompleteBy(p, c) ==
 \* tagged response for c: look it up by tag under the mutex, remove it, complete it.
 \* Looking at the tags of all pending commands races with an Initialise in progress.
 Answer(c) ==
-  /\ reader = "run" /\ conn = "open" /\ c \in sent /\ InSeq(c, registered) /\ c \in inited
+  /\ reader = "run" /\ found = 0 /\ conn = "open" /\ c \in sent /\ InSeq(c, registered) /\ c \in inited
   /\ registered' = Without(registered, c)
   /\ race' = (race \/ (\E i \in 1..Len(registered) : registered[i] \notin inited))
   /\ CompleteBy(ReaderProc, c)
-  /\ UNCHANGED <<pc, inited, sent, conn, closer, reader>>
+  /\ UNCHANGED <<pc, inited, sent, conn, closer, reader, enc, found, panicked>>
+
+\* untagged data for streaming command c: looked up under the mutex ...
+DeliverFind(c) ==
+  /\ reader = "run" /\ found = 0 /\ conn = "open" /\ c \in Streaming /\ c \in sent /\ InSeq(c, registered)
+  /\ found' = c
+  /\ UNCHANGED <<pc, registered, inited, sent, ncomp, conn, closer, reader, race, enc, panicked>>
+\* ... and sent on the command's channel outside of it; completeCommand closes that channel
+DeliverSend ==
+  /\ found # 0
+  /\ panicked' = (panicked \/ ncomp[found] > 0)
+  /\ found' = 0
+  /\ UNCHANGED <<pc, registered, inited, sent, ncomp, conn, closer, reader, race, enc>>
 
 \* the connection is lost (server closes, reset, Close() by the user)
 Lose == /\ conn = "open" /\ conn' = "lost"
-        /\ UNCHANGED <<pc, registered, inited, sent, ncomp, closer, reader, race>>
+        /\ UNCHANGED <<pc, registered, inited, sent, ncomp, closer, reader, race, enc, found, panicked>>
 
 \* the reader notices and runs closeWithError: swap pendingCmds out under the mutex ...
 ReaderSwap ==
-  /\ reader = "run" /\ conn = "lost" /\ closer[ReaderProc].st = "none"
+  /\ reader = "run" /\ found = 0 /\ conn = "lost" /\ closer[ReaderProc].st = "none"
   /\ closer' = [closer EXCEPT ![ReaderProc] = [st |-> "swapped", take |-> registered]]
   /\ registered' = <<>>
-  /\ UNCHANGED <<pc, inited, sent, ncomp, conn, reader, race>>
+  /\ UNCHANGED <<pc, inited, sent, ncomp, conn, reader, race, enc, found, panicked>>
 
 \* ... then complete every command taken, one by one (by whoever runs closeWithError)
 CloseComplete(p, c) ==
@@ -114,17 +133,19 @@ CloseComplete(p, c) ==
           /\ closer' = [closer EXCEPT ![p].take = Tail(@)]
      ELSE /\ ncomp' = ncomp          \* send on a nil channel: p never gets further
           /\ closer' = [closer EXCEPT ![p].st = "stuck"]
-  /\ UNCHANGED <<pc, registered, inited, sent, conn, reader, race>>
+  /\ UNCHANGED <<pc, registered, inited, sent, conn, reader, race, enc, found, panicked>>
 
 CloseDone(p) ==
   /\ closer[p].st = "swapped" /\ closer[p].take = <<>>
   /\ closer' = [closer EXCEPT ![p].st = "done"]
   /\ reader' = IF p = ReaderProc THEN "exit" ELSE reader
-  /\ UNCHANGED <<pc, registered, inited, sent, ncomp, conn, race>>
+  /\ enc' = IF p = enc THEN 0 ELSE enc
+  /\ UNCHANGED <<pc, registered, inited, sent, ncomp, conn, race, found, panicked>>
 
 Next ==
   \/ \E s \in Subs : Register(s) \/ Initialise(s) \/ Write(s) \/ Wait(s) \/ Answer(s)
-  \/ Lose \/ ReaderSwap
+  \/ Lose \/ ReaderSwap \/ DeliverSend
+  \/ \E c \in Subs : DeliverFind(c)
   \/ \E p \in Procs, c \in Subs : CloseComplete(p, c)
   \/ \E p \in Procs : CloseDone(p)
 
@@ -136,6 +157,7 @@ TypeOK == /\ \A s \in Subs : ncomp[s] \in 0..2
           /\ inited \subseteq Subs
 NoDataRace == ~race
 AtMostOnce == \A s \in Subs : ncomp[s] <= 1
+NoSendOnClosedChannel == ~panicked
 NobodyStuck == \A p \in Procs : closer[p].st # "stuck"
 \* Every maximal behaviour ends (the state graph is acyclic); where it ends, every submitter's Wait has
 \* returned and every command has been completed exactly once.
